@@ -227,7 +227,7 @@ Proof.
   - chk1 H F1. chk1 H F2. destruct (step_csl_locks _ T l) eqn:K; try discriminate. ok_inv H.
     apply step_csl_locks_view in K. rewrite K. reflexivity.
   - destruct (c =? 0); [| chk1 H F1; ok_inv H; reflexivity].
-    chk1 H F1. destruct (step_keys _ T ks tr_csl_rb) eqn:K; try discriminate. ok_inv H.
+    chk1 H F1. destruct (step_keys _ T _ tr_csl_rb) eqn:K; try discriminate. ok_inv H.
     apply step_keys_view in K. rewrite K. reflexivity.
   - ok_inv H. reflexivity.
 Qed.
